@@ -93,13 +93,23 @@ fn main() {
             let rec = scn.run_case(seed, tier);
             eprintln!("log={:016x} issues={}", rec.log_hash, rec.issues.len());
         }
+        Some("minimise") => {
+            // minimise <property> <replay-or-case file> <rule> <out file>: triage aid, shrinks a case while the rule fires
+            let scn = scenario_for(&args[2]).expect("property");
+            let doc: serde_json::Value = serde_json::from_str(&std::fs::read_to_string(&args[3]).expect("file")).expect("json");
+            let doc = if doc.get("case").is_some() { doc["case"].clone() } else { doc };
+            let out = scn.minimise(doc, &args[4]);
+            std::fs::write(&args[5], serde_json::to_string_pretty(&out).unwrap()).unwrap();
+            let rec = scn.replay(&out);
+            for i in &rec.issues {
+                say!("  {}:{} {}", i.prop, i.rule, i.msg);
+            }
+        }
         Some("w1try") => {
             let from: u64 = args[2].parse().unwrap();
             let to: u64 = args[3].parse().unwrap();
             let max_jobs: usize = args.get(4).and_then(|s| s.parse().ok()).unwrap_or(12);
-            let mut allowed = gen::problem::Features::all();
-            allowed.req_breaks = false;
-            allowed.relations = false;
+            let allowed = scen::w1::allowed_features();
             let tuning = scen::w1::W1Tuning { max_jobs, max_generations: 20, allowed };
             let mut n_issues = 0;
             let mut rules: std::collections::BTreeMap<String, (u64, u64)> = Default::default();
@@ -130,9 +140,7 @@ fn main() {
         Some("w1dump") => {
             let seed: u64 = args[2].parse().unwrap();
             let max_jobs: usize = args.get(3).and_then(|s| s.parse().ok()).unwrap_or(12);
-            let mut allowed = gen::problem::Features::all();
-            allowed.req_breaks = false;
-            allowed.relations = false;
+            let allowed = scen::w1::allowed_features();
             let tuning = scen::w1::W1Tuning { max_jobs, max_generations: 20, allowed };
             let (case, _) = scen::w1::make_case(seed, &tuning);
             let out = scen::w1::execute(&case);
@@ -153,6 +161,8 @@ fn main() {
 fn scenario_for(prop: &str) -> Option<Box<dyn coord::Scenario>> {
     match prop {
         "C01" => Some(Box::new(scen::w1::W1Scenario { prop: "C01" })),
+        // triage alias: the full-solve scenario reporting what its judge attributes to C07 (panics, solve errors)
+        "W1C07" => Some(Box::new(scen::w1::W1Scenario { prop: "C07" })),
         "C02" => Some(Box::new(scen::w1::W1Scenario { prop: "C02" })),
         "C03" => Some(Box::new(scen::w1::W1Scenario { prop: "C03" })),
         "C04" => Some(Box::new(scen::w2::W2Scenario { prop: "C04" })),
